@@ -211,7 +211,7 @@ func history(seed int64, length int, profile string, rec *recorder, ttl bool) {
 	// let the leader finish its own bootstrap writes (self registration, CA, system metadata)
 	time.Sleep(1500 * time.Millisecond)
 	e := &env{vs: vs, ctx: context.Background()}
-	g := &sh.AbsGen{R: rand.New(rand.NewSource(seed)), Store: vs.State, Profile: profile, NoReap: true, NoSerf: true}
+	g := &sh.AbsGen{R: rand.New(rand.NewSource(seed)), Store: vs.State, Profile: profile, NoReap: true, NoSerf: true, TxnKV: true}
 	r2 := rand.New(rand.NewSource(seed ^ 0x5eed))
 	for i := 0; i < length; i++ {
 		c := g.Next()
